@@ -616,7 +616,8 @@ def run(ck):
              "hist = one kept Server, lookup table and endpoint table changing between dials, Lookup calls counted per "
              "dial; the fixed cases and one tagged round per mode again under the race detector; office = random interleavings of dial programs "
              "with wrong-key/wrong-id/stale/duplicate deliveries; conns = random add/get/remove/shutdown; ids = "
-             "concurrent next(); e2e = rounds of 8/24/64 concurrent tagged connections to 2-6 endpoints per tunnel mode; "
+             "concurrent next(); e2e = rounds of 8/24/64 concurrent tagged connections to 2-6 endpoints per tunnel mode, every backend "
+             "answering with one Write of 32768/65536/100000 bytes of the connection's tag; "
              "non-trivial unless the operation list is empty; distinct = distinct case bodies",
         assumptions=["each method of sessionID/connMailOffice/connections is atomic (mutex held for the whole body)",
                      "the session-id counter does not wrap (2^64 dials per endpoint connection)",
